@@ -65,6 +65,7 @@ NoiseOK(ev) ==
   /\ Abs(ev.mean_e) * 100 <= 3 * ev.ma_r                               \* zero mean (random data)
   \* EVERY transmitted position of the frame carries noise (a continuous value: practically all frames differ there), every
   \* punctured position is exactly zero in every frame
+  /\ ev.dup_frames = 0                                                  \* no frame is delivered twice (by one worker or by two)
   /\ Len(ev.pos_distinct) = ev.cfg.ncw /\ ev.frames >= 50
   /\ LET P == Pat(ev.cfg.pat)  b == ev.cfg.ncw \div Len(P) IN
      \A v \in 1..ev.cfg.ncw : IF P[((v - 1) \div b) + 1] THEN ev.pos_distinct[v] >= 40 ELSE ev.pos_distinct[v] = 1
